@@ -556,7 +556,6 @@ func c16NoTCP(c *Ctx) {
 	c.Ev.Count("sequential_tc0_tcp_connections_accepted", int64(e.tcp.Accepts()))
 }
 
-
 // c16AfterFailures: "whenever the UDP reply has TC set" also holds after many TCP legs have failed:
 // 70 truncated replies whose TCP leg fails at once (connection closed / refused), then truncated
 // replies with a healthy TCP side, which must be answered over TCP.
